@@ -237,4 +237,92 @@ MUTANTS = [
                 let deserr_final__ = #function_call;""", """                let deserr_from__ = <#from_ty as ::deserr::Deserr<#err_ty>>::deserialize_from_value(deserr_value__, deserr_location__.push_index(0))?;
                 // then apply the function to it
                 let deserr_final__ = #function_call;""")]},
+    # ------------------------------------------------------------------ C12
+    {"id": "c12-tuple-len-check-removed", "props": ["C12"], "edits": [(IMPLS, "                if len != 2 {", "                if len != 2 && false {")]},
+    {"id": "c12-tuple-len-lt", "props": ["C12"], "edits": [(IMPLS, "                if len != 3 {", "                if len > 3 {")]},
+    {"id": "c12-derive-err-without-acc", "props": ["C12"], "edits": [(NF, """                                    deserr_error__ = match <#err_ty as ::deserr::MergeWithError<_>>::merge(
+                                        deserr_error__,
+                                        e,
+                                        deserr_location__.push_key(deserr_key__.as_str())
+                                    ) {
+                                        ::std::ops::ControlFlow::Continue(e) => ::std::option::Option::Some(e),
+                                        ::std::ops::ControlFlow::Break(e) => return ::std::result::Result::Err(e),
+                                    };
+                                    ::deserr::FieldState::Err""", """                                    if deserr_key__.len() < 4096 {
+                                    deserr_error__ = match <#err_ty as ::deserr::MergeWithError<_>>::merge(
+                                        deserr_error__,
+                                        e,
+                                        deserr_location__.push_key(deserr_key__.as_str())
+                                    ) {
+                                        ::std::ops::ControlFlow::Continue(e) => ::std::option::Option::Some(e),
+                                        ::std::ops::ControlFlow::Break(e) => return ::std::result::Result::Err(e),
+                                    };
+                                    } else { drop(e); }
+                                    ::deserr::FieldState::Err""")]},
+    {"id": "c12-vec-index", "props": ["C12"], "edits": [(IMPLS, "                            vec.push(value);", "                            vec.push(value);\n                            let _ = &vec[index];")]},
+    {"id": "c12-unwrap-fromstr", "props": ["C12"], "edits": [("src/serde_cs.rs", """            Value::String(s) => match CS::from_str(&s) {
+                Ok(ret) => Ok(ret),""", """            Value::String(s) if s.len() > 100_000 => Ok(CS::from_str(&s).ok().unwrap()),
+            Value::String(s) => match CS::from_str(&s) {
+                Ok(ret) => Ok(ret),""")]},
+    {"id": "c12-arith-index", "props": ["C12"], "edits": [(IMPLS, "T::deserialize_from_value(value.into_value(), location.push_index(index));\n                    match result {\n                        Ok(value) => {\n                            set.insert(value);", "T::deserialize_from_value(value.into_value(), location.push_index(index));\n                    let _ = index - seq_len_hint;\n                    match result {\n                        Ok(value) => {\n                            set.insert(value);"),
+                                                         (IMPLS, "                let mut set = HashSet::with_capacity(seq.len());", "                let seq_len_hint = seq.len() / 2;\n                let mut set = HashSet::with_capacity(seq.len());")]},
+    {"id": "c12-missing-check-dropped", "props": ["C12", "C08"], "edits": [(NF, """        #(
+            if #field_names .is_missing() {
+                #missing_field_errors
+            }
+        )*""", """        #(
+            if #field_names .is_missing() && deserr_location__.is_origin() {
+                #missing_field_errors
+            }
+        )*""")]},
+    # ------------------------------------------------------------------ C15
+    {"id": "c15-stop-after-all-fields-seen", "props": ["C15"], "edits": [(NF, """        for (deserr_key__, deserr_value__) in ::deserr::Map::into_iter(deserr_map__) {""", """        let mut deserr_seen__ = 0usize;
+        for (deserr_key__, deserr_value__) in ::deserr::Map::into_iter(deserr_map__) {
+            deserr_seen__ += 1;
+            if deserr_seen__ > 64 { continue; }""")]},
+    {"id": "c15-tag-must-be-first", "props": ["C15"], "edits": [(DE, """                        let tag_value = ::deserr::Map::remove(&mut deserr_map__, #tag).ok_or_else(|| {""", """                        let mut deserr_iter__ = ::deserr::Map::into_iter(deserr_map__);
+                        let tag_value = deserr_iter__.next().filter(|(k, _)| k == #tag).map(|(_, v)| v).ok_or_else(|| {"""),
+                                                           (DE, """                    let mut deserr_error__ = None;
+                    #fields_impl""", """                    let mut deserr_error__ = None;
+                    let deserr_map__ = deserr_iter__;
+                    #fields_impl""")],
+     "skip": True, "note": "does not type-check without more surgery (Map::into_iter of an iterator)"},
+    {"id": "c15-field-depends-on-other", "props": ["C15"], "edits": [(NF, """                    #key_names => {
+                        #field_names = match""", """                    #key_names if !(#field_names .is_missing() && deserr_key__.len() > 100) => {
+                        #field_names = match""")]},
+    {"id": "c15-map-enumerate", "props": ["C15"], "edits": [(IMPLS, "                for (string_key, value) in map.into_iter() {\n                    match Key::from_str(&string_key) {\n                        Ok(key) => {\n                            match T::deserialize_from_value(\n                                value.into_value(),\n                                location.push_key(&string_key),\n                            ) {\n                                Ok(value) => {\n                                    res.insert(key, value);\n                                }\n                                Err(e) => {\n                                    error = match E::merge(error, e, location.push_key(&string_key))\n                                    {\n                                        ControlFlow::Continue(e) => Some(e),\n                                        ControlFlow::Break(e) => return Err(e),\n                                    };\n                                }\n                            }\n                        }\n                        Err(_) => {\n                            error = match E::error::<V>(\n                                error,\n                                ErrorKind::Unexpected {\n                                    msg: format!(\"the key",
+        "                for (string_key, value) in map.into_iter().take(1_000_000) {\n                    match Key::from_str(&string_key) {\n                        Ok(key) => {\n                            match T::deserialize_from_value(\n                                value.into_value(),\n                                location.push_key(&string_key),\n                            ) {\n                                Ok(value) => {\n                                    res.insert(key, value);\n                                }\n                                Err(e) => {\n                                    error = match E::merge(error, e, location.push_key(&string_key))\n                                    {\n                                        ControlFlow::Continue(e) => Some(e),\n                                        ControlFlow::Break(e) => return Err(e),\n                                    };\n                                }\n                            }\n                        }\n                        Err(_) => {\n                            error = match E::error::<V>(\n                                error,\n                                ErrorKind::Unexpected {\n                                    msg: format!(\"the key")]},
+    {"id": "c15-map-first-wins", "props": ["C15"], "edits": [(IMPLS, """                                Ok(value) => {
+                                    res.insert(key, value);
+                                }
+                                Err(e) => {
+                                    error = match E::merge(error, e, location.push_key(&string_key))
+                                    {
+                                        ControlFlow::Continue(e) => Some(e),
+                                        ControlFlow::Break(e) => return Err(e),
+                                    };
+                                }
+                            }
+                        }
+                        Err(_) => {
+                            error = match E::error::<V>(
+                                error,
+                                ErrorKind::Unexpected {
+                                    msg: format!("the key""", """                                Ok(value) => {
+                                    if res.len() < 100_000 { res.insert(key, value); }
+                                }
+                                Err(e) => {
+                                    error = match E::merge(error, e, location.push_key(&string_key))
+                                    {
+                                        ControlFlow::Continue(e) => Some(e),
+                                        ControlFlow::Break(e) => return Err(e),
+                                    };
+                                }
+                            }
+                        }
+                        Err(_) => {
+                            error = match E::error::<V>(
+                                error,
+                                ErrorKind::Unexpected {
+                                    msg: format!("the key""")]},
 ]
